@@ -13,6 +13,7 @@ import (
 	"reflect"
 	"runtime"
 	"strings"
+	"time"
 
 	"github.com/xelaj/mtproto/internal/encoding/tl"
 
@@ -369,6 +370,34 @@ func c15Gen(g *G) {
 		emitUnk(c15cat(le32(0x1cb5c415), le32(3), le64(1), le64(2), le64(3)), hs, "vector-root-valid")
 		emitUnk(c15cat(le32(0xf35c6d01), le64(7), le32(0x1cb5c415), le32(2), tlString([]byte("ab")), tlString([]byte("cdef"))), hs, "vector-in-rpc-result-valid")
 	}
+	// vectors nested in element / object position: every vector id consumes one hint, so inputs with
+	// more vector ids than hints (and with exactly as many) must be refused or decoded, never crash
+	vec := func(elems ...[]byte) []byte {
+		b := c15cat(le32(0x1cb5c415), le32(uint32(len(elems))))
+		for _, e := range elems {
+			b = c15cat(b, e)
+		}
+		return b
+	}
+	nestHints := []string{"-", "ftl.Object", "ftl.Object,ftl.Object", "ftl.Object,i64", "i64,ftl.Object", "ftl.Object,ftl.Object,ftl.Object", "ftelegram.User"}
+	for _, c := range all {
+		if c.Name == "objects.RpcResult" {
+			nestHints = append(nestHints, fmt.Sprintf("p%08x", c.ID), fmt.Sprintf("p%08x,i64", c.ID))
+		}
+	}
+	pongB := c15cat(le32(0x347773c5), le64(5), le64(6))
+	nested := [][]byte{
+		vec(vec()), vec(vec(), vec()), vec(vec(vec())), vec(vec(vec(vec()))), vec(pongB, vec()), vec(vec(pongB), pongB),
+		vec(vec(le64(1), le64(2))), vec(c15cat(le32(0xf35c6d01), le64(3), vec())), vec(c15cat(le32(0xf35c6d01), le64(3), vec(vec()))),
+		vec(c15cat(le32(0xf35c6d01), le64(3), pongB), c15cat(le32(0xf35c6d01), le64(4), vec(le64(9)))),
+	}
+	for _, hs := range nestHints {
+		for _, b := range nested {
+			emitUnk(b, hs, "vector-nested")
+			emitUnk(c15cat(le32(0xf35c6d01), le64(r.U64()), b), hs, "vector-nested-in-rpc-result")
+			emitUnk(c15cat(le32(0x3072cfa1), tlString(goGzip(b))), hs, "vector-nested-in-gzip")
+		}
+	}
 	for _, id := range []uint32{0xbc799737, 0x997275b5, 0x56730bcc, 0xe06046b2, 0x12345678, 0} {
 		emitUnk(le32(id), "-", "special-root")
 		emitUnk(c15cat(le32(id), r.Bytes(24)), "-", "special-root")
@@ -427,5 +456,5 @@ func c15Gen(g *G) {
 }
 
 func init() {
-	register(&Prop{Name: "c15", Gen: c15Gen, Exec: c15Exec, Judge: c15Judge})
+	register(&Prop{Name: "c15", Gen: c15Gen, Exec: c15Exec, Judge: c15Judge, OpTimeout: 20 * time.Second})
 }
